@@ -61,3 +61,126 @@ Print Assumptions c14_unrepaired_refuted.
 Example c14_complete_instance :
   pip (join ([[102;111;111]] ++ [[98;97;114]]) ++ [47]) (join [[102;111;111]] ++ [47;47]) = true.
 Proof. vm_compute. reflexivity. Qed.
+
+(* ====== the file-system side (P23): LocalFileSystem::remove and the removal loop on a tree with symbolic links ======
+   Model: Path/FsRemove.v (the system calls the code issues, each resolving its path as the kernel does).
+   [get fs q] is the object at the canonical path q (no link followed): every object of the tree has exactly one.
+   Scope of the lexical statements: the path has a component, none is "." or "..", and no component before the
+   last one is a symbolic link ([no_link_on_the_way]); outside that scope see the two *_refuted theorems. *)
+From LLB Require Import Path.FsRemove Path.FsRemoveProofs.
+
+(* the model of the code equals "the entry and everything beneath it disappears" (remove_spec) *)
+Theorem c14_fs_remove_is_spec : forall fs cs trail,
+  wf fs = true -> cs <> [] -> plain_comps cs = true -> no_link_on_the_way fs cs = true ->
+  outcome (remove fs cs trail) = remove_spec fs cs trail.
+Proof. exact remove_nolink_spec. Qed.
+Print Assumptions c14_fs_remove_is_spec.
+
+(* nothing outside the removed path is touched: what lstat reports of ANY canonical path that does not have the
+   removed path as a component-prefix is the same before and after (so the target of a removed link, and the
+   targets of links inside a removed directory, are untouched) *)
+Theorem c14_fs_remove_frame : forall fs cs trail q,
+  wf fs = true -> cs <> [] -> plain_comps cs = true -> no_link_on_the_way fs cs = true ->
+  comp_prefix cs q = false ->
+  option_map shallow (get (fst (remove fs cs trail)) q) = option_map shallow (get fs q).
+Proof. exact remove_frame. Qed.
+Print Assumptions c14_fs_remove_frame.
+
+Theorem c14_fs_remove_frame_subtree : forall fs cs trail q,
+  wf fs = true -> cs <> [] -> plain_comps cs = true -> no_link_on_the_way fs cs = true ->
+  comp_prefix cs q = false -> comp_prefix q cs = false ->
+  get (fst (remove fs cs trail)) q = get fs q.
+Proof. exact remove_frame_subtree. Qed.
+Print Assumptions c14_fs_remove_frame_subtree.
+
+(* a directory together with everything beneath it: after success nothing at or beneath the path is left *)
+Theorem c14_fs_remove_complete : forall fs cs trail x,
+  wf fs = true -> cs <> [] -> plain_comps cs = true -> no_link_on_the_way fs cs = true ->
+  snd (remove fs cs trail) = None ->
+  get (fst (remove fs cs trail)) (cs ++ x) = None.
+Proof. exact remove_complete. Qed.
+Print Assumptions c14_fs_remove_complete.
+
+Theorem c14_fs_remove_error_unchanged : forall fs cs trail e,
+  wf fs = true -> cs <> [] -> plain_comps cs = true -> no_link_on_the_way fs cs = true ->
+  snd (remove fs cs trail) = Some e ->
+  fst (remove fs cs trail) = fs.
+Proof. exact remove_error_unchanged. Qed.
+Print Assumptions c14_fs_remove_error_unchanged.
+
+Theorem c14_fs_remove_succeeds_iff : forall fs cs trail,
+  wf fs = true -> cs <> [] -> plain_comps cs = true -> no_link_on_the_way fs cs = true ->
+  (snd (remove fs cs trail) = None <-> removable_at fs cs trail = true).
+Proof. exact remove_succeeds_iff. Qed.
+Print Assumptions c14_fs_remove_succeeds_iff.
+
+(* the removal loop of StaleFileRemovalCommand::execute over a deletion list ds, exactly: afterwards ANY canonical
+   path q reports "nothing" when a listed path that named something removable is a component-prefix of q, and
+   reports what it reported before otherwise *)
+Theorem c14_fs_stale_apply_exact : forall fs ds q,
+  wf fs = true -> stale_scope fs ds ->
+  option_map shallow (get (stale_apply fs ds) q) =
+    if covered fs ds q then None else option_map shallow (get fs q).
+Proof. exact stale_apply_exact. Qed.
+Print Assumptions c14_fs_stale_apply_exact.
+
+Theorem c14_fs_stale_gone_iff : forall fs ds q x,
+  wf fs = true -> stale_scope fs ds -> get fs q = Some x ->
+  (get (stale_apply fs ds) q = None <->
+   exists d, In d ds /\ removable fs d = true /\ comp_prefix (comps d) q = true).
+Proof. exact stale_apply_gone_iff. Qed.
+Print Assumptions c14_fs_stale_gone_iff.
+
+Theorem c14_fs_stale_untouched : forall fs ds q,
+  wf fs = true -> stale_scope fs ds ->
+  (forall d, In d ds -> comp_prefix (comps d) q = false) ->
+  option_map shallow (get (stale_apply fs ds) q) = option_map shallow (get fs q).
+Proof. exact stale_apply_untouched. Qed.
+Print Assumptions c14_fs_stale_untouched.
+
+(* the code walks the list in std::set order, the model in the order of the prior list: no difference *)
+Theorem c14_fs_stale_order_irrelevant : forall fs ds ds' q,
+  wf fs = true -> stale_scope fs ds -> (forall d, In d ds <-> In d ds') ->
+  option_map shallow (get (stale_apply fs ds) q) = option_map shallow (get (stale_apply fs ds') q).
+Proof. exact stale_apply_order_irrelevant. Qed.
+Print Assumptions c14_fs_stale_order_irrelevant.
+
+(* with roots given: every path of the tree that lies lexically under none of the roots is unchanged after the run *)
+Theorem c14_fs_nothing_outside_roots : forall fs prior expected roots q,
+  roots <> [] -> wf fs = true -> stale_scope fs (to_delete prior expected roots) ->
+  (forall r, In r roots -> comp_prefix (comps r) q = false) ->
+  option_map shallow (get (stale_apply fs (to_delete prior expected roots)) q) = option_map shallow (get fs q).
+Proof. exact fs_nothing_outside_roots. Qed.
+Print Assumptions c14_fs_nothing_outside_roots.
+
+(* WITHOUT "no link on the way" (everything else kept) the conclusion fails: prior ["/root/lnk/x"] with
+   /root/lnk -> /elsewhere and roots ["/root"] removes /elsewhere/x.  The real code does the same; the path IS
+   lexically inside the root, so this is within the letter of the property. *)
+Theorem c14_fs_link_on_the_way_refuted :
+  exists fs prior expected roots q x,
+    roots <> [] /\ wf fs = true /\
+    (forall d, In d (to_delete prior expected roots) -> comps d <> [] /\ plain_comps (comps d) = true) /\
+    (forall r, In r roots -> comp_prefix (comps r) q = false) /\
+    get fs q = Some x /\ get (stale_apply fs (to_delete prior expected roots)) q = None.
+Proof. exact fs_link_on_the_way_refuted. Qed.
+Print Assumptions c14_fs_link_on_the_way_refuted.
+
+(* WITHOUT it an error result does not imply an unchanged tree: /a/l -> "/" and the path /a/l/a *)
+Theorem c14_fs_remove_error_unchanged_refuted :
+  exists fs s fs' e,
+    wf fs = true /\ comps s <> [] /\ plain_comps (comps s) = true /\
+    remove_path fs s = (fs', Some e) /\ fs' <> fs.
+Proof. exact remove_error_unchanged_refuted. Qed.
+Print Assumptions c14_fs_remove_error_unchanged_refuted.
+
+(* non-vacuity: a tree with a link to an outside directory as the stale path itself, a dangling link, a link to a
+   file and a directory containing a link meets the hypotheses; the outside directory keeps its content *)
+Example c14_fs_instance_scope : wf ex_tree = true /\ stale_scope ex_tree ex_stale.
+Proof. exact ex_scope. Qed.
+Example c14_fs_instance_result :
+  stale_apply ex_tree ex_stale =
+  Dir [(n_root, Dir [(n_x, File 1)]); (n_else, Dir [(n_x, File 3)]); (n_keep, File 5)].
+Proof. exact ex_stale_result. Qed.
+Example c14_fs_instance_trailing_sep :
+  remove_path ex_tree (s_abs [n_root; n_out] ++ [47]) = (ex_tree, Some ENOTDIR).
+Proof. exact ex_remove_link_trailing_sep. Qed.
